@@ -136,7 +136,7 @@ func vExportNoPanic(c *JApiCore) {
 func HEmitCases() {
 	patterns := []string{"ab+", "[", "a(", "+", "*a", "a{2", "\\", "(?P<x>a)", "a|b", "", "[a-z]{2,}", "\\x01",
 		"[^\\x00-\\x7F]+", "[^\\s\\S]x", "a|[^\\x00-\\x7F]"} // classes without a printable character: the example generator cannot serve them
-	nDocs := 16
+	nDocs := 19
 	di := vInt("doc", 0, nDocs-1)
 	pat, pr := "", ""
 	if di <= 4 || di == 15 {
@@ -172,6 +172,9 @@ func HEmitCases() {
 		"TYPE @k\n\"abc\"\nTYPE @d\n{\n  @k: 1\n}\nGET /a\n  200\n  { // {allOf: \"@d\"}\n    \"@k\": 2\n  }\n", // inherits a key shortcut, has a literal key of the same text
 		"TYPE @k\n\"abc\"\nTYPE @d\n{\n  \"@k\": 1\n}\nTYPE @c\n{ // {allOf: \"@d\"}\n  @k: 2\n}\nGET /a\n  200 @c\n", // the other way round, in a type
 		"TYPE @r regex\n/" + pat + "/\nGET /a\n  200\n  {\"n\": @r}\nGET /b\n  200\n  [@r]\nPOST /c\n  Request @r\n  200 any\n", // a regex type referred to by jsight schemas
+		"GET /a\n  200\n  // todo\n",                                                            // a body that holds nothing but a comment
+		"URL /rpc\n  Protocol json-rpc-2.0\n  Method m\n    Params\n    /* later */\n    Result\n    // c\n", // the same for Params / Result
+		"POST /a\n  Request\n    Body\n    // c\n  200\n    Body\n    // c\n",                       // and for Body directives
 	}
 	vAssert(len(docs) == nDocs, "bad-fixture-count")
 	c, je := vBuildText("JSIGHT 0.3\n" + docs[di])
